@@ -1,6 +1,7 @@
 use std::fmt;
 use std::time::Duration;
 
+use crate::channel::ChannelObserver;
 use crate::executor::{Executor, Signal};
 use crate::ports::InputFn;
 use crate::simulation::{self, ActionKey, Address, GlobalScheduler, Mailbox, SchedulingError};
@@ -447,7 +448,6 @@ impl<M: Model> fmt::Debug for Context<M> {
 /// }
 ///
 /// ```
-#[derive(Debug)]
 pub struct BuildContext<'a, P: ProtoModel> {
     mailbox: &'a Mailbox<P::Model>,
     name: &'a String,
@@ -455,6 +455,7 @@ pub struct BuildContext<'a, P: ProtoModel> {
     executor: &'a Executor,
     abort_signal: &'a Signal,
     model_names: &'a mut Vec<String>,
+    observers: &'a mut Vec<(String, Box<dyn ChannelObserver>)>,
 }
 
 impl<'a, P: ProtoModel> BuildContext<'a, P> {
@@ -466,6 +467,7 @@ impl<'a, P: ProtoModel> BuildContext<'a, P> {
         executor: &'a Executor,
         abort_signal: &'a Signal,
         model_names: &'a mut Vec<String>,
+        observers: &'a mut Vec<(String, Box<dyn ChannelObserver>)>,
     ) -> Self {
         Self {
             mailbox,
@@ -474,6 +476,7 @@ impl<'a, P: ProtoModel> BuildContext<'a, P> {
             executor,
             abort_signal,
             model_names,
+            observers,
         }
     }
 
@@ -518,6 +521,15 @@ impl<'a, P: ProtoModel> BuildContext<'a, P> {
             self.executor,
             self.abort_signal,
             self.model_names,
+            self.observers,
         );
+    }
+}
+
+impl<P: ProtoModel> fmt::Debug for BuildContext<'_, P> {
+    fn fmt(&self, f: &mut fmt::Formatter) -> fmt::Result {
+        f.debug_struct("BuildContext")
+            .field("name", &self.name())
+            .finish_non_exhaustive()
     }
 }
